@@ -90,14 +90,17 @@ impl Prop for Months {
         let n = n_atoms(u, day, op)?;
         let datetime = u.coin(1, 2)?;
         let off = if datetime && u.coin(1, 4)? { gen::offset(u)? } else { 0 };
+        // offset-carrying receivers on the outermost days (built by arithmetic, obs::mk_dt_off_late)
+        let day = if off != 0 && u.coin(1, 10)? { if u.coin(1, 2)? { cal::MAX_DAY - u.below(2)? as i64 } else { cal::MIN_DAY + u.below(2)? as i64 } } else { day };
         Ok(Case { day, ns: gen::day_ns(u)?, off, n, op, datetime })
     }
     fn check(c: &Case, cx: &mut Cx) -> Verdict {
         if !(cal::MIN_DAY..=cal::MAX_DAY).contains(&c.day) || !(0..86_400_000_000_000).contains(&c.ns) || c.op > 3 || c.off.abs() > 86_399 {
             return Verdict::Skip("malformed case");
         }
-        if c.datetime && c.off != 0 && (c.day < cal::MIN_DAY + 1 || c.day > cal::MAX_DAY - 1) {
-            return Verdict::Skip("offset receiver on an outermost day of the range");
+        let late = c.datetime && c.off != 0 && (c.day < cal::MIN_DAY + 1 || c.day > cal::MAX_DAY - 1);
+        if late {
+            cx.nt("offset_receiver_on_an_outermost_day_built_by_arithmetic");
         }
         let start = cal::ymd_from_days(c.day);
         let delta: i64 = match c.op {
@@ -175,7 +178,7 @@ impl Prop for Months {
             return judge(&sigbase, &what, in_range, target, r.map(|d| (d, 0, None)), 0, None);
         }
         let ia = c.day as i128 * tl::DAY_NS + c.ns as i128;
-        let d0 = match catch(|| mk_dt_off_any(ia, c.off)) {
+        let d0 = match catch(|| if late { mk_dt_off_late(ia, c.off) } else { mk_dt_off_any(ia, c.off) }) {
             Ok(d) => d,
             Err(p) => return fail("c05.harness_build", "receiver builds", p.short()),
         };
